@@ -4,6 +4,8 @@ from mirq import ty_str
 from mirq.origin import Origins, show, walk, decisions, dominating_guards, lit_truth
 from mirq.pat import match, find, strip_refs
 from mirq.expand import Expander
+from mirq.origin import subst
+from mirq.paths import Paths, Unsupported, passes_result, show_fact, show_eff, UNIT
 
 MONOFONT = "embedded_graphics::mono_font::MonoFont"
 STRMAP = "embedded_graphics::mono_font::mapping::StrGlyphMapping"
@@ -182,6 +184,28 @@ def check_roles(prog, rep):
     impls = [i for i in prog.impls.values() if i.get("trait") == DT and i["self_ty"].get("adt") == T]
     rep.check(len(impls) == 3, "R14.3", "impls", "expected 3 DrawTarget impls of MonoFontDrawTarget, found %d" % len(impls), status="undecided")
     colors_idx = field_index(prog, T, "colors")
+    P_ = Paths(prog, inline=lambda g: prog.is_new(g) or (g.name in ("is_on", "is_off") and "BinaryColor" in g.path))
+    sc = ("field", ("param", 1, "self"), colors_idx)
+    parent = ("field", ("param", 1, "self"), field_index(prog, T, "parent"))
+
+    def closure_cases(clo):
+        """[(facts, ret)] of a closure aggregate, captured values substituted"""
+        g = prog.fns.get(clo[1][len("closure:"):])
+        caps = clo[2]
+        out = []
+        for sm in P_.of(g):
+            r = lambda n: strip_refs(caps[n[1]]) if n[0] == "upvar" and n[1] < len(caps) else None
+            out.append(([tuple(subst(x, r) if isinstance(x, tuple) and x and isinstance(x[0], str) and x[0] not in ("not", "any") else x for x in fct) for fct in sm.facts], subst(sm.ret, r), sm.effects))
+        return out
+
+    def colour_of(t):
+        m = match(t, ("field", sc, "?i"))
+        return m["?i"] if m is not None else None
+
+    def variant_sel(facts):
+        vs = [fct[2] for fct in facts if fct[0] == "variant"]
+        return vs[0] if len(vs) == 1 and len(facts) == 1 else (("Off", "On") if not facts else None)
+
     for impl in impls:
         flavour = str(impl["self_ty"]["args"][-1].get("adt", "?")).split("::")[-1]
         if flavour not in want:
@@ -189,66 +213,85 @@ def check_roles(prog, rep):
             continue
         fs = prog.fns[impl["fns"]["fill_solid"]]
         table = {}
-        for lits, ret, path in decisions(fs):
-            variant = None
-            for d, lit in lits:
-                if d[0] == "discr" and lit in ((0,), (1,)):
-                    variant = {0: "Off", 1: "On"}[lit[0]]
-            # does this path call parent.fill_solid, and with which colour field?
-            po = Origins(fs, path=path)
-            used = None
-            for k, b in enumerate(path):
-                t = fs.body["blocks"][b]["t"]
-                if t and t["k"] == "call" and t["f"].get("name") == "fill_solid":
-                    col = strip_refs(po.term_args(k)[2])
-                    m = match(col, ("field", ("field", ("param", 1, "self"), colors_idx), "?i"))
-                    used = m["?i"] if m else "?"
-            table[variant] = used
-        rep.check(table == want[flavour], "R14.3", "fill_solid:" + flavour,
-                  "fill_solid colour roles %s differ from the documented %s (On=text colour colors.0; Off=background)" % (table, want[flavour]), at=fs.span, fn=fs.path, detail=table)
-        # fill_contiguous: inspect closures
+        bad = []
+        try:
+            for sm in P_.of(fs):
+                sel = variant_sel([fct for fct in sm.facts if not (fct[0] == "variant" and fct[1][0] == "call")])
+                cs = [e[1] for e in sm.calls()]
+                if sel is None or len(cs) > 1 or sm.writes() or (cs and not (cs[0][1].split("::")[-1] == "fill_solid" and cs[0][3][0] == parent and cs[0][3][1] == ("param", 2, "area"))):
+                    bad.append("a path with %s does %s" % ("; ".join(show_fact(x) for x in sm.facts), "; ".join(show_eff(e) for e in sm.effects)))
+                    continue
+                if cs and not passes_result(sm, cs[0]):
+                    bad.append("the parent's result is not returned")
+                if not cs and sm.ret != ("agg", "core::result::Result::Ok", (UNIT,)):
+                    bad.append("a path that draws nothing returns %s" % show(sm.ret, maxd=3))
+                for v in sel:
+                    used = colour_of(cs[0][3][2]) if cs else None
+                    if cs and used is None:
+                        used = "?"
+                    if v in table and table[v] != used:
+                        bad.append("%s is drawn with two different colours" % v)
+                    table[v] = used
+        except Unsupported as e:
+            bad.append("cannot summarise: %s" % e)
+        rep.check(table == want[flavour] and not bad, "R14.3", "fill_solid:" + flavour,
+                  "fill_solid colour roles %s differ from the documented %s (On=text colour colors.0; Off=background) %s" % (table, want[flavour], "; ".join(bad[:2])), at=fs.span, fn=fs.path, detail=table)
+        # fill_contiguous: the closures handed to filter / map decide which glyph pixels reach the parent with which colour
         fc = prog.fns[impl["fns"]["fill_contiguous"]]
-        clos = prog.closures_of.get(fc.id, [])
         got = {}
-        for c in clos:
-            co = Origins(c)
-            # filter closures: call is_on / is_off on the pixel colour
-            for bi in co.cfg.live_blocks():
-                t = c.body["blocks"][bi]["t"]
-                if t and t["k"] == "call" and t["f"].get("name") in ("is_on", "is_off"):
-                    got["filter"] = t["f"]["name"]
-            decs = decisions(c)
-            for lits, ret, path in decs:
-                ret = strip_refs(ret)
-                for d, lit in lits:
-                    if d[0] == "discr" and lit in ((0,), (1,)) and ret[0] == "upvar":
-                        got[{0: "Off", 1: "On"}[lit[0]]] = ret[2]
-            ro = strip_refs(co.return_origin())
-            m = match(ro, ("agg", "*Pixel::Pixel", ("_", ("upvar", "?k", "?n"))))
-            if m is not None:
-                got["map"] = m["?n"]
-        org = Origins(fc)
-        callee = [fc.body["blocks"][bi]["t"]["f"].get("name") for bi in sorted(org.cfg.live_blocks())
-                  if fc.body["blocks"][bi]["t"] and fc.body["blocks"][bi]["t"]["k"] == "call" and fc.body["blocks"][bi]["t"]["f"].get("trait") == DT]
-        fgsrc = None
-        # foreground_color / background_color locals originate from self.colors.0 / .1
-        for l, loc in enumerate(fc.body["locals"]):
-            pass
+        callee = []
+        bad = []
+        try:
+            summs = P_.of(fc)
+            for sm in summs:
+                cs = [e[1] for e in sm.calls()]
+                callee += [c[1].split("::")[-1] for c in cs]
+                if len(cs) != 1 or sm.facts or cs[0][3][0] != parent or not passes_result(sm, cs[0]):
+                    bad.append("fill_contiguous must be one unconditional call on self.parent whose result is returned")
+                    continue
+                stream = cs[0][3][-1]
+                for n in walk(stream):
+                    if n[0] == "call" and n[1].split("::")[-1] in ("filter", "map", "filter_map", "take_while", "skip_while", "skip", "take", "step_by", "rev", "chain", "zip") and n[1].startswith(("core::iter", "<")) or \
+                            (n[0] == "call" and "Iterator" in n[1] and n[1].split("::")[-1] in ("filter", "map")):
+                        nm = n[1].split("::")[-1]
+                        clos = [a for a in n[3] if a[0] == "agg" and str(a[1]).startswith("closure:")]
+                        if nm not in ("filter", "map") or len(clos) != 1:
+                            bad.append("unexpected stream adapter %s" % nm)
+                            continue
+                        cases = closure_cases(clos[0])
+                        if nm == "filter":
+                            acc = set()
+                            for facts, ret, eff in cases:
+                                sel = variant_sel(facts)
+                                if sel is None or ret not in (("const", True), ("const", False)) or eff:
+                                    bad.append("filter closure not a test of the glyph colour")
+                                elif ret == ("const", True):
+                                    acc |= set(sel)
+                            got["filter"] = sorted(acc)
+                        else:
+                            for facts, ret, eff in cases:
+                                sel = variant_sel(facts)
+                                r = strip_refs(ret)
+                                if r[0] == "agg" and str(r[1]).endswith("Pixel::Pixel") and len(r[2]) == 2:
+                                    pos_ok = match(r[2][0], ("field", ("param", 2, "_"), 0)) is not None
+                                    if not pos_ok:
+                                        bad.append("map closure moves the pixel: %s" % show(r[2][0], maxd=3))
+                                    r = r[2][1]
+                                k = colour_of(r)
+                                if sel is None or k is None or eff:
+                                    bad.append("map closure does not return one of self.colors: %s" % show(ret, maxd=3))
+                                    continue
+                                for v in sel:
+                                    got.setdefault("map", {})[v] = k
+        except Unsupported as e:
+            bad.append("cannot summarise: %s" % e)
         if flavour == "Foreground":
-            good = got.get("filter") == "is_on" and got.get("map") == "foreground_color" and callee == ["draw_iter"]
+            good = got == {"filter": ["On"], "map": {"Off": 0, "On": 0}} and callee == ["draw_iter"]
         elif flavour == "Background":
-            good = got.get("filter") == "is_off" and got.get("map") == "foreground_color" and callee == ["draw_iter"]
+            good = got == {"filter": ["Off"], "map": {"Off": 0, "On": 0}} and callee == ["draw_iter"]
         else:
-            good = got.get("On") == "foreground_color" and got.get("Off") == "background_color" and callee == ["fill_contiguous"]
-        # and the captured colours are colors.0 / colors.1
-        caps = {}
-        for bi in sorted(org.cfg.live_blocks()):
-            for si, s in enumerate(fc.body["blocks"][bi]["s"]):
-                if s["k"] == "assign" and fc.body["locals"][s["place"]["l"]].get("name") in ("foreground_color", "background_color") and not s["place"]["p"]:
-                    caps[fc.body["locals"][s["place"]["l"]]["name"]] = strip_refs(org._rvalue(s["rv"], bi, si))
-        sc = ("field", ("param", 1, "self"), colors_idx)
-        good = good and caps.get("foreground_color") == ("field", sc, 0) and (flavour != "Both" or caps.get("background_color") == ("field", sc, 1))
-        rep.check(good, "R14.3", "fill_contiguous:" + flavour, "fill_contiguous colour roles not as documented: %s via %s, captures %s" % (got, callee, {k: show(v) for k, v in caps.items()}),
+            good = got == {"map": {"On": 0, "Off": 1}} and callee == ["fill_contiguous"]
+        rep.check(good and not bad, "R14.3", "fill_contiguous:" + flavour, "fill_contiguous colour roles not as documented: %s via %s %s" % (got, callee, "; ".join(sorted(set(bad))[:2])),
                   at=fc.span, fn=fc.path, detail=got)
     # construction in draw_string: Both(text, background), Foreground(text), Background(background)
     STYLE = "embedded_graphics::mono_font::mono_text_style::MonoTextStyle"
